@@ -25,7 +25,7 @@
 
 typedef struct { int thorough; int partial_every; int copy_every; } ctx_t;
 
-typedef struct { size_t k; size_t partial; uint8_t cls; } image_t;   /* cls: 0 between writes, 1 torn append, 2 torn in-place chunk-header update, 3 torn in-place payload (head table / file header),
+typedef struct { size_t k; size_t partial; uint8_t cls; uint8_t embeds; } image_t;   /* cls: 0 between writes, 1 torn append, 2 torn in-place chunk-header update, 3 torn in-place payload (head table / file header),
                                                                       * 4 the properly closed file cut short to `partial` bytes (all in-place updates applied, the tail missing) */
 
 typedef struct {
@@ -202,8 +202,9 @@ static int run_and_plan(plan_t *pl, rng_t *r, const char *path, const ctx_t *c) 
     size_t cap = 0;
     int64_t fsize = 0;
     uint8_t wcls = 0;
+    int embeds = 0;
     for (size_t k = 0; k <= pl->nmut; ++k) {
-#define ADD(kk, pp) do { if (pl->nimg == cap) { cap = cap ? cap * 2 : 1024; pl->img = realloc(pl->img, cap * sizeof(image_t)); } pl->img[pl->nimg].k = (kk); pl->img[pl->nimg].partial = (pp); pl->img[pl->nimg].cls = (pp) ? wcls : 0; pl->nimg++; } while (0)
+#define ADD(kk, pp) do { if (pl->nimg == cap) { cap = cap ? cap * 2 : 1024; pl->img = realloc(pl->img, cap * sizeof(image_t)); } pl->img[pl->nimg].k = (kk); pl->img[pl->nimg].partial = (pp); pl->img[pl->nimg].cls = (pp) ? wcls : 0; pl->img[pl->nimg].embeds = (uint8_t) ((pp) ? embeds : 0); pl->nimg++; } while (0)
         ADD(k, 0);
         if (k == pl->nmut) break;
         size_t ei = iolog_mutation_index(k);
@@ -214,9 +215,16 @@ static int run_and_plan(plan_t *pl, rng_t *r, const char *path, const ctx_t *c) 
         /* torn header updates of large chunks (a resynchronising reader has to skip >= 4 KB) are always enumerated */
         int big_patch = 0;
         if (wcls == 2 && (size_t) g_io.ev[ei].off + 32 <= g_io.sh_n) { uint32_t pl32; memcpy(&pl32, g_io.sh + g_io.ev[ei].off + 20, 4); big_patch = pl32 >= 4000; }
-        if (c->partial_every > 1 && (k % (size_t) c->partial_every) != 0 && !big_patch) continue;
+        /* an appended payload that begins with a complete chunk image (PAYLOAD_EMBEDS_CHUNKS): cuts behind the embedded images are
+         * always enumerated, and always copied */
+        embeds = 0;
+        if (wcls == 1 && len >= 600 && g_io.keep_data && g_io.ev[ei].data_pos + len <= g_io.data_n) {
+            const uint8_t *wd = g_io.data + g_io.ev[ei].data_pos; uint32_t c32; memcpy(&c32, wd + 28, 4);
+            embeds = jd_crc32c(wd, 28) == c32;
+        }
+        if (c->partial_every > 1 && (k % (size_t) c->partial_every) != 0 && !big_patch && !embeds) continue;
         if (len <= 40) { for (uint32_t q = 1; q < len; ++q) ADD(k, q); }
-        else { uint32_t qs[6] = {1, 7, 8, len / 2, len - 5, len - 1}; for (int q = 0; q < 6; ++q) ADD(k, qs[q]); }
+        else { uint32_t qs[6] = {1, 7, 8, len / 2, len - 5, len - 1}; for (int q = 0; q < 6; ++q) ADD(k, qs[q]); if (embeds) { ADD(k, 70); ADD(k, 200); ADD(k, 300); } }
     }
     /* the closed file cut short: every candidate in the thorough tier, an evenly spaced selection of 48 otherwise */
     {
@@ -389,7 +397,7 @@ static void image_case(uint64_t ii, void *vctx) {
     /* cut points between two writes every copy_every-th image; writes torn in the middle (torn appends, torn in-place header
      * updates: the copy then has to resynchronise behind an unreadable chunk) every 4*copy_every-th, torn header updates always */
     int torn_hdr = im->partial && im->cls == 2;
-    if (!cutc && ic->c->copy_every && im->k >= pl->k_def && (torn_hdr || (ii % (uint64_t) (im->partial ? 4 * ic->c->copy_every : ic->c->copy_every)) == 0)) {
+    if (!cutc && ic->c->copy_every && im->k >= pl->k_def && (torn_hdr || im->embeds || (ii % (uint64_t) (im->partial ? 4 * ic->c->copy_every : ic->c->copy_every)) == 0)) {
         const char *src = v_path("unclosed.jls"), *dst = v_path("unclosed-copy.jls");
         img = NULL; n = iolog_image(im->k, im->partial, &img);
         write_file(src, img, n); free(img);
